@@ -30,4 +30,23 @@ with open(os.path.join(VERIF, "seeded", "MATRIX.md"), "w") as f:
     n = len(rows)
     caught = sum(1 for r in rows if "caught" in r[6] and "MISSED" not in r[6])
     f.write("\n%d seeds kept; %d caught by the current quick checks; %d of them were missed when first tried.\n" % (n, caught, sum(1 for r in rows if r[7].startswith("no"))))
+    # behaviour-preserving changes (the opposite expectation: every check must stay quiet)
+    hrows = []
+    for d in sorted(glob.glob(os.path.join(VERIF, "seeded", "harmless", "C*"))):
+        try:
+            m = json.load(open(os.path.join(d, "meta.json")))
+        except Exception:
+            continue
+        c = m.get("confirmed_by_coordinator", {})
+        verdicts = {p: ("quiet" if v.get("exit") == 0 else "ALARM") for p, v in c.get("checks", {}).items()}
+        hrows.append((os.path.basename(d), " ".join(str(m.get("summary", "")).split())[:170].replace("|", "/"),
+                      ", ".join("%s: %s" % kv for kv in verdicts.items()) or "not run"))
+    if hrows:
+        f.write("\n# Behaviour-preserving changes and which checks were run against them\n\nProduced by fresh agents that saw only the property text "
+                "(refactors, private renames and representation changes, correct caching, reworded diagnostics); each keeps the suite at 405 passed. "
+                "`harness/harmtest.py` ran every check whose property is anchored in a touched file; the expected verdict is exit 0.\n\n")
+        f.write("| change | what | quick checks run (last run) |\n|---|---|---|\n")
+        for r in hrows:
+            f.write("| %s | %s | %s |\n" % r)
+        f.write("\n%d changes; %d with every check quiet.\n" % (len(hrows), sum(1 for r in hrows if "ALARM" not in r[2] and r[2] != "not run")))
 print("matrix: %d seeds" % len(rows))
